@@ -5,9 +5,10 @@ import Ach.Model.GoLite
 * `eval_noRelax`, `exec_noRelax`: a program that mentions no relaxation flag behaves the same under two contexts that
   differ only in relaxation flags.
 * `rejectOnly_no_accept`: a block whose `return`s are all syntactically non-nil errors never returns nil.
-* `noAssign_suffix`: a block without assignments that falls through leaves the outer variables untouched.
+* `noAssign_suffix`: a block without assignments / loop exits that passes control on leaves the outer variables untouched.
 * `relax_mono`: for a program of the `relaxOK` shape, switching on more relaxation flags can only turn the outcome
-  into `accept` or leave it unchanged whenever it was `accept` / fall-through.
+  into `accept` or leave it unchanged whenever it was `accept` / fall-through / `break` / `continue`.
+* `spine_sound`: every guard on the spine of a function is false in a run that returns nil.
 -/
 namespace Ach.GoLite
 
@@ -15,16 +16,23 @@ namespace Ach.GoLite
 structure CtxLe (c c' : Ctx) : Prop where
   fields : c.fields = c'.fields
   ext : c.ext = c'.ext
+  recv : c.recv = c'.recv
   other : ∀ src n, relaxFlags.contains n = false → hasFlag c src n = hasFlag c' src n
   more : ∀ src n, hasFlag c src n = true → hasFlag c' src n = true
 
-theorem CtxLe.refl (c : Ctx) : CtxLe c c := ⟨rfl, rfl, fun _ _ _ => rfl, fun _ _ h => h⟩
+theorem CtxLe.refl (c : Ctx) : CtxLe c c := ⟨rfl, rfl, rfl, fun _ _ _ => rfl, fun _ _ h => h⟩
+
+theorem CtxLe.withRecv {c c' : Ctx} (h : CtxLe c c') (p : String) :
+    CtxLe { c with recv := p } { c' with recv := p } :=
+  ⟨h.fields, h.ext, rfl, fun src n hn => by simpa [hasFlag] using h.other src n hn,
+   fun src n hh => by simpa [hasFlag] using h.more src n (by simpa [hasFlag] using hh)⟩
 
 theorem eval_noRelax {c c' : Ctx} (h : CtxLe c c') (l : Locals) :
     ∀ e, exprNoRelax e = true → eval c l e = eval c' l e := by
   intro e
   induction e with
-  | fld n => intro _; simp [eval, h.fields]
+  | fld n => intro _; simp [eval, h.fields, h.recv]
+  | self => intro _; simp [eval, h.recv]
   | flag src n =>
       intro hn
       simp [exprNoRelax] at hn
@@ -32,6 +40,9 @@ theorem eval_noRelax {c c' : Ctx} (h : CtxLe c c') (l : Locals) :
   | nonNil e ih => intro hn; simp [exprNoRelax] at hn; simp [eval, ih hn]
   | wrapErr t e ih => intro hn; simp [exprNoRelax] at hn; simp [eval, ih hn]
   | not a ih => intro hn; simp [exprNoRelax] at hn; simp [eval, ih hn]
+  | sel a n ih => intro hn; simp [exprNoRelax] at hn; simp [eval, ih hn, h.fields]
+  | idx a b iha ihb => intro hn; simp [exprNoRelax] at hn; simp [eval, iha hn.1, ihb hn.2]
+  | pair a b iha ihb => intro hn; simp [exprNoRelax] at hn; simp [eval, iha hn.1, ihb hn.2]
   | and a b iha ihb => intro hn; simp [exprNoRelax] at hn; simp [eval, iha hn.1, ihb hn.2]
   | or a b iha ihb => intro hn; simp [exprNoRelax] at hn; simp [eval, iha hn.1, ihb hn.2]
   | eq a b iha ihb => intro hn; simp [exprNoRelax] at hn; simp [eval, iha hn.1, ihb hn.2]
@@ -60,45 +71,108 @@ theorem evalArgs_noRelax {c c' : Ctx} (h : CtxLe c c') (l : Locals) (args : List
       simp only [List.map_cons]
       rw [eval_noRelax h l a hn.1, ih (by simpa using hn.2)]
 
-theorem exec_noRelax {c c' : Ctx} (h : CtxLe c c') :
-    ∀ p, progNoRelax p = true → ∀ l, exec c p l = exec c' p l := by
+theorem exec_noRelax :
+    ∀ p, progNoRelax p = true → ∀ (c c' : Ctx), CtxLe c c' → ∀ l, exec p c l = exec p c' l := by
   intro p
   induction p with
-  | skip => intro _ l; simp [exec]
-  | ret e => intro hn l; simp [progNoRelax] at hn; simp [exec, eval_noRelax h l e hn]
+  | skip => intro _ c c' _ l; simp [exec]
+  | brk => intro _ c c' _ l; simp [exec]
+  | cont => intro _ c c' _ l; simp [exec]
+  | ret e => intro hn c c' h l; simp [progNoRelax] at hn; simp [exec, eval_noRelax h l e hn]
   | ite cnd t e iht ihe =>
-      intro hn l
+      intro hn c c' h l
       simp [progNoRelax] at hn
-      simp [exec, eval_noRelax h l cnd hn.1.1, iht hn.1.2 l, ihe hn.2 l]
+      simp [exec, eval_noRelax h l cnd hn.1.1, iht hn.1.2 c c' h l, ihe hn.2 c c' h l]
   | seq a b iha ihb =>
-      intro hn l
+      intro hn c c' h l
       simp [progNoRelax] at hn
-      simp only [exec, iha hn.1 l]
-      split <;> simp_all
-  | block p ih => intro hn l; simp [progNoRelax] at hn; simp [exec, ih hn l]
-  | bind x e => intro hn l; simp [progNoRelax] at hn; simp [exec, eval_noRelax h l e hn]
-  | bind2 x y e => intro hn l; simp [progNoRelax] at hn; simp [exec, eval_noRelax h l e hn]
-  | assign x e => intro hn l; simp [progNoRelax] at hn; simp [exec, eval_noRelax h l e hn]
-  | assign2 x y e => intro hn l; simp [progNoRelax] at hn; simp [exec, eval_noRelax h l e hn]
-  | check tag body ih => intro hn l; simp [progNoRelax] at hn; simp [exec, ih hn []]
+      simp only [exec, iha hn.1 c c' h l]
+      split
+      · exact ihb hn.2 c c' h _
+      · rfl
+  | block p ih => intro hn c c' h l; simp [progNoRelax] at hn; simp [exec, ih hn c c' h l]
+  | bind x e => intro hn c c' h l; simp [progNoRelax] at hn; simp [exec, eval_noRelax h l e hn]
+  | bind2 x y e => intro hn c c' h l; simp [progNoRelax] at hn; simp [exec, eval_noRelax h l e hn]
+  | assign x e => intro hn c c' h l; simp [progNoRelax] at hn; simp [exec, eval_noRelax h l e hn]
+  | assign2 x y e => intro hn c c' h l; simp [progNoRelax] at hn; simp [exec, eval_noRelax h l e hn]
+  | check tag body ih => intro hn c c' h l; simp [progNoRelax] at hn; simp [exec, ih hn c c' h []]
   | sub x params args body ih =>
-      intro hn l
+      intro hn c c' h l
       simp [progNoRelax] at hn
       have ha := evalArgs_noRelax h l args (by simpa using hn.1)
       simp only [exec, ha]
       split
       · rfl
-      · rw [ih hn.2]
-  | unknown s => intro _ l; simp [exec]
+      · rw [ih hn.2 c c' h]
+  | checkOn tag recv params args body ih =>
+      intro hn c c' h l
+      simp [progNoRelax] at hn
+      have ha := evalArgs_noRelax h l args (by simpa using hn.1.2)
+      simp only [exec, ha, eval_noRelax h l recv hn.1.1]
+      split
+      · rename_i p _
+        split
+        · rfl
+        · rw [ih hn.2 _ _ (h.withRecv p)]
+      · rfl
+  | subOn x recv params args body ih =>
+      intro hn c c' h l
+      simp [progNoRelax] at hn
+      have ha := evalArgs_noRelax h l args (by simpa using hn.1.2)
+      simp only [exec, ha, eval_noRelax h l recv hn.1.1]
+      split
+      · rename_i p _
+        split
+        · rfl
+        · rw [ih hn.2 _ _ (h.withRecv p)]
+      · rfl
+  | forEach v coll body ih =>
+      intro hn c c' h l
+      simp [progNoRelax] at hn
+      have hf : (fun l' => exec body c l') = (fun l' => exec body c' l') := funext (fun l' => ih hn.2 c c' h l')
+      simp only [exec, eval_noRelax h l coll hn.1, hf]
+  | forIdx v coll body ih =>
+      intro hn c c' h l
+      simp [progNoRelax] at hn
+      have hf : (fun l' => exec body c l') = (fun l' => exec body c' l') := funext (fun l' => ih hn.2 c c' h l')
+      simp only [exec, eval_noRelax h l coll hn.1, hf]
+  | unknown s => intro _ c c' _ l; simp [exec]
+
+theorem checkResult_no_accept (tag : Option String) (l : Locals) (s : Sig) :
+    (checkResult tag l s).2 ≠ .ret (.err none) := by
+  unfold checkResult; split <;> simp
+
+theorem subResult_no_accept (x : String) (l : Locals) (s : Sig) :
+    (subResult x l s).2 ≠ .ret (.err none) := by
+  unfold subResult; split <;> simp
+
+theorem iter_no_accept (f : Locals → Locals × Sig) (mk : Nat → Val) (v : String)
+    (hf : ∀ l, (f l).2 ≠ .ret (.err none)) : ∀ is l, (iter f mk v is l).2 ≠ .ret (.err none) := by
+  intro is
+  induction is with
+  | nil => intro l; simp [iter]
+  | cons i is ih =>
+      intro l
+      simp only [iter]
+      split
+      · exact ih _
+      · exact ih _
+      · simp
+      · have := hf ((v, mk i) :: l)
+        intro hx
+        apply this
+        simpa using hx
 
 /-- a block whose returns are all syntactically non-nil errors never returns nil -/
-theorem rejectOnly_no_accept (c : Ctx) :
-    ∀ p, rejectOnly p = true → ∀ l, (exec c p l).2 ≠ .ret (.err none) := by
+theorem rejectOnly_no_accept :
+    ∀ p, rejectOnly p = true → ∀ (c : Ctx) l, (exec p c l).2 ≠ .ret (.err none) := by
   intro p
   induction p with
-  | skip => intro _ l; simp [exec]
+  | skip => intro _ c l; simp [exec]
+  | brk => intro _ c l; simp [exec]
+  | cont => intro _ c l; simp [exec]
   | ret e =>
-      intro hr l
+      intro hr c l
       simp only [exec]
       cases e <;> simp [rejectOnly, isErrExpr] at hr
       case mkErr t => simp [eval]
@@ -113,34 +187,64 @@ theorem rejectOnly_no_accept (c : Ctx) :
           split <;> simp
           all_goals (rename_i hx; revert hx; split <;> simp)
   | ite cnd t e iht ihe =>
-      intro hr l
+      intro hr c l
       simp [rejectOnly] at hr
       simp only [exec]
       split
-      · exact iht hr.1 l
-      · exact ihe hr.2 l
+      · exact iht hr.1 c l
+      · exact ihe hr.2 c l
       · simp
   | seq a b iha ihb =>
-      intro hr l
+      intro hr c l
       simp [rejectOnly] at hr
       simp only [exec]
       split
-      · exact ihb hr.2 _
-      · rename_i r hne
-        have := iha hr.1 l
-        exact this
-  | block p ih => intro hr l; simp [rejectOnly] at hr; simp only [exec]; exact ih hr l
-  | bind x e => intro _ l; simp only [exec]; split <;> simp
-  | bind2 x y e => intro _ l; simp only [exec]; split <;> simp
-  | assign x e => intro _ l; simp only [exec]; split <;> (try simp) <;> split <;> simp
-  | assign2 x y e => intro _ l; simp only [exec]; split <;> (try simp) <;> split <;> simp
-  | check tag body _ => intro _ l; simp only [exec]; split <;> simp
+      · exact ihb hr.2 c _
+      · exact iha hr.1 c l
+  | block p ih => intro hr c l; simp [rejectOnly] at hr; simp only [exec]; exact ih hr c l
+  | bind x e => intro _ c l; simp only [exec]; split <;> simp
+  | bind2 x y e => intro _ c l; simp only [exec]; split <;> simp
+  | assign x e => intro _ c l; simp only [exec]; split <;> (try simp) <;> split <;> simp
+  | assign2 x y e => intro _ c l; simp only [exec]; split <;> (try simp) <;> split <;> simp
+  | check tag body _ => intro _ c l; simp only [exec]; exact checkResult_no_accept _ _ _
   | sub x params args body _ =>
-      intro _ l
+      intro _ c l
       simp only [exec]
       split
       · simp
-      · split <;> simp
+      · exact subResult_no_accept _ _ _
+  | checkOn tag recv params args body _ =>
+      intro _ c l
+      simp only [exec]
+      split
+      · split
+        · simp
+        · exact checkResult_no_accept _ _ _
+      · simp
+  | subOn x recv params args body _ =>
+      intro _ c l
+      simp only [exec]
+      split
+      · split
+        · simp
+        · exact subResult_no_accept _ _ _
+      · simp
+  | forEach v coll body ih =>
+      intro hr c l
+      simp [rejectOnly] at hr
+      simp only [exec]
+      split
+      · exact iter_no_accept _ _ _ (fun l' => ih hr c l') _ _
+      · simp
+      · simp
+  | forIdx v coll body ih =>
+      intro hr c l
+      simp [rejectOnly] at hr
+      simp only [exec]
+      split
+      · exact iter_no_accept _ _ _ (fun l' => ih hr c l') _ _
+      · simp
+      · simp
   | unknown s => intro hr; simp [rejectOnly] at hr
 
 theorem scopeExit_append (pre l : Locals) : scopeExit l (pre ++ l) = l := by
@@ -149,75 +253,122 @@ theorem scopeExit_append (pre l : Locals) : scopeExit l (pre ++ l) = l := by
 theorem scopeExit_self (l : Locals) : scopeExit l l = l := by
   simp [scopeExit]
 
-/-- a block without assignments that falls through only added declarations in front -/
-theorem noAssign_suffix (c : Ctx) :
-    ∀ p, noAssign p = true → ∀ l l1, exec c p l = (l1, .next) → ∃ pre, l1 = pre ++ l := by
+/-- signals that pass control on inside a function: fall-through, `break`, `continue` -/
+def passing (s : Sig) : Prop := s = .next ∨ s = .brk ∨ s = .cont
+
+theorem checkResult_passing (tag : Option String) (l : Locals) (s : Sig) (h : passing (checkResult tag l s).2) :
+    checkResult tag l s = (l, .next) := by
+  unfold checkResult at h ⊢
+  split <;> simp_all [passing]
+
+theorem subResult_passing (x : String) (l : Locals) (s : Sig) (h : passing (subResult x l s).2) :
+    ∃ v, subResult x l s = ((x, v) :: l, .next) := by
+  unfold subResult at h ⊢
+  split <;> simp_all [passing]
+
+/-- a block without assignments and loop exits that passes control on falls through and only added declarations in front -/
+theorem noAssign_suffix :
+    ∀ p, noAssign p = true → ∀ (c : Ctx) l, passing (exec p c l).2 →
+      (exec p c l).2 = .next ∧ ∃ pre, (exec p c l).1 = pre ++ l := by
   intro p
   induction p with
-  | skip => intro _ l l1 h; simp [exec] at h; exact ⟨[], by simp [h]⟩
-  | ret e => intro _ l l1 h; simp [exec] at h
+  | skip => intro _ c l _; simp [exec]
+  | brk => intro hn; simp [noAssign] at hn
+  | cont => intro hn; simp [noAssign] at hn
+  | ret e => intro _ c l h; simp [exec, passing] at h
   | ite cnd t e iht ihe =>
-      intro hn l l1 h
+      intro hn c l h
       simp [noAssign] at hn
-      simp only [exec] at h
-      split at h
-      · simp only [Prod.mk.injEq] at h
-        obtain ⟨pre, hp⟩ := iht hn.1 l (exec c t l).1 (by rw [← h.2])
-        exact ⟨[], by rw [← h.1, hp, scopeExit_append]; simp⟩
-      · simp only [Prod.mk.injEq] at h
-        obtain ⟨pre, hp⟩ := ihe hn.2 l (exec c e l).1 (by rw [← h.2])
-        exact ⟨[], by rw [← h.1, hp, scopeExit_append]; simp⟩
-      · simp at h
+      simp only [exec] at h ⊢
+      cases hc : eval c l cnd with
+      | bool b =>
+          rw [hc] at h
+          cases b with
+          | true =>
+              simp only at h ⊢
+              obtain ⟨h1, pre, hp⟩ := iht hn.1 c l h
+              exact ⟨h1, [], by simp only [hp, scopeExit_append]; rfl⟩
+          | false =>
+              simp only at h ⊢
+              obtain ⟨h1, pre, hp⟩ := ihe hn.2 c l h
+              exact ⟨h1, [], by simp only [hp, scopeExit_append]; rfl⟩
+      | _ => rw [hc] at h; simp [passing] at h
   | seq a b iha ihb =>
-      intro hn l l1 h
+      intro hn c l h
       simp [noAssign] at hn
-      simp only [exec] at h
-      split at h
-      · rename_i l2 heq
-        obtain ⟨p1, hp1⟩ := iha hn.1 l l2 heq
-        obtain ⟨p2, hp2⟩ := ihb hn.2 l2 l1 h
-        exact ⟨p2 ++ p1, by rw [hp2, hp1, List.append_assoc]⟩
-      · rename_i r hne
-        exfalso
-        apply hne l1
-        exact h
+      simp only [exec] at h ⊢
+      have hpa := iha hn.1 c l
+      cases ha : exec a c l with
+      | mk l2 s2 =>
+        rw [ha] at h hpa
+        cases s2 with
+        | next =>
+            simp only at h ⊢
+            obtain ⟨_, p1, hp1⟩ := hpa (Or.inl rfl)
+            simp only at hp1
+            obtain ⟨h2, p2, hp2⟩ := ihb hn.2 c l2 h
+            exact ⟨h2, p2 ++ p1, by rw [hp2, hp1, List.append_assoc]⟩
+        | brk => have := (hpa (Or.inr (Or.inl rfl))).1; simp at this
+        | cont => have := (hpa (Or.inr (Or.inr rfl))).1; simp at this
+        | ret v => simp [passing] at h
+        | stuck w => simp [passing] at h
   | block p ih =>
-      intro hn l l1 h
+      intro hn c l h
       simp [noAssign] at hn
-      simp only [exec, Prod.mk.injEq] at h
-      obtain ⟨pre, hp⟩ := ih hn l (exec c p l).1 (by rw [← h.2])
-      exact ⟨[], by rw [← h.1, hp, scopeExit_append]; simp⟩
+      simp only [exec] at h ⊢
+      obtain ⟨h1, pre, hp⟩ := ih hn c l h
+      exact ⟨h1, [], by simp only [hp, scopeExit_append]; rfl⟩
   | bind x e =>
-      intro _ l l1 h
-      simp only [exec] at h
-      split at h
-      · simp at h
-      · simp only [Prod.mk.injEq] at h; exact ⟨[(x, _)], by rw [← h.1]; rfl⟩
+      intro _ c l h
+      simp only [exec] at h ⊢
+      cases hb : eval c l e <;> rw [hb] at h <;> first | (simp [passing] at h; done) | exact ⟨rfl, [(x, _)], rfl⟩
   | bind2 x y e =>
-      intro _ l l1 h
-      simp only [exec] at h
-      split at h
-      · simp only [Prod.mk.injEq] at h; exact ⟨[(y, _), (x, _)], by rw [← h.1]; rfl⟩
-      · simp at h
+      intro _ c l h
+      simp only [exec] at h ⊢
+      cases hb : eval c l e <;> rw [hb] at h <;> first | (simp [passing] at h; done) | exact ⟨rfl, [(y, _), (x, _)], rfl⟩
   | assign x e => intro hn; simp [noAssign] at hn
   | assign2 x y e => intro hn; simp [noAssign] at hn
   | check tag body _ =>
-      intro _ l l1 h
-      simp only [exec] at h
-      split at h
-      · simp only [Prod.mk.injEq] at h; exact ⟨[], by simp [h.1]⟩
-      · simp at h
-      · simp at h
+      intro _ c l h
+      simp only [exec] at h ⊢
+      rw [checkResult_passing _ _ _ h]
+      exact ⟨rfl, [], rfl⟩
   | sub x params args body _ =>
-      intro _ l l1 h
-      simp only [exec] at h
+      intro _ c l h
+      simp only [exec] at h ⊢
       split at h
-      · simp at h
-      · split at h
-        · simp at h
-        · simp only [Prod.mk.injEq] at h; exact ⟨[(x, _)], by rw [← h.1]; rfl⟩
-        · simp at h
-  | unknown s => intro _ l l1 h; simp [exec] at h
+      · simp [passing] at h
+      · rename_i hb
+        rw [if_neg hb]
+        obtain ⟨v, hv⟩ := subResult_passing _ _ _ h
+        rw [hv]
+        exact ⟨rfl, [(x, v)], rfl⟩
+  | checkOn tag recv params args body _ =>
+      intro _ c l h
+      simp only [exec] at h ⊢
+      cases hr : eval c l recv <;> rw [hr] at h <;> try (simp [passing] at h; done)
+      simp only at h ⊢
+      split at h
+      · simp [passing] at h
+      · rename_i hb
+        rw [if_neg hb]
+        rw [checkResult_passing _ _ _ h]
+        exact ⟨rfl, [], rfl⟩
+  | subOn x recv params args body _ =>
+      intro _ c l h
+      simp only [exec] at h ⊢
+      cases hr : eval c l recv <;> rw [hr] at h <;> try (simp [passing] at h; done)
+      simp only at h ⊢
+      split at h
+      · simp [passing] at h
+      · rename_i hb
+        rw [if_neg hb]
+        obtain ⟨v, hv⟩ := subResult_passing _ _ _ h
+        rw [hv]
+        exact ⟨rfl, [(x, v)], rfl⟩
+  | forEach v coll body _ => intro hn; simp [noAssign] at hn
+  | forIdx v coll body _ => intro hn; simp [noAssign] at hn
+  | unknown s => intro _ c l h; simp [exec, passing] at h
 
 theorem eval_noVar (c : Ctx) (l l' : Locals) :
     ∀ e, exprNoVar e = true → eval c l e = eval c l' e := by
@@ -227,6 +378,9 @@ theorem eval_noVar (c : Ctx) (l l' : Locals) :
   | nonNil e ih => intro hn; simp [exprNoVar] at hn; simp [eval, ih hn]
   | wrapErr t e ih => intro hn; simp [exprNoVar] at hn; simp [eval, ih hn]
   | not a ih => intro hn; simp [exprNoVar] at hn; simp [eval, ih hn]
+  | sel a n ih => intro hn; simp [exprNoVar] at hn; simp [eval, ih hn]
+  | idx a b iha ihb => intro hn; simp [exprNoVar] at hn; simp [eval, iha hn.1, ihb hn.2]
+  | pair a b iha ihb => intro hn; simp [exprNoVar] at hn; simp [eval, iha hn.1, ihb hn.2]
   | and a b iha ihb => intro hn; simp [exprNoVar] at hn; simp [eval, iha hn.1, ihb hn.2]
   | or a b iha ihb => intro hn; simp [exprNoVar] at hn; simp [eval, iha hn.1, ihb hn.2]
   | eq a b iha ihb => intro hn; simp [exprNoVar] at hn; simp [eval, iha hn.1, ihb hn.2]
@@ -246,9 +400,34 @@ theorem eval_noVar (c : Ctx) (l l' : Locals) :
       intro hn; simp [exprNoVar] at hn; simp [eval, iha hn.1.1, ihb hn.1.2, ihd hn.2]
   | _ => intro _; simp [eval]
 
+theorem spine_noVar : ∀ p e, e ∈ spine p → exprNoVar e = true := by
+  intro p
+  induction p with
+  | seq a b iha ihb =>
+      intro e he
+      simp only [spine, List.mem_append] at he
+      rcases he with he | he
+      · exact iha e he
+      · split at he
+        · exact ihb e he
+        · simp at he
+  | block p ih => intro e he; exact ih e he
+  | check tag body ih => intro e he; exact ih e he
+  | ite cnd t e0 _ _ =>
+      intro e he
+      simp only [spine] at he
+      split at he
+      · rename_i hc
+        simp only [Bool.and_eq_true] at hc
+        simp only [List.mem_singleton] at he
+        subst he
+        exact hc.2
+      · simp at he
+  | _ => intro e he; simp [spine] at he
+
 /-- every guard on the spine is false in a run that returns nil or falls through -/
 theorem spine_sound (c : Ctx) :
-    ∀ p l, ((exec c p l).2 = .ret (.err none) ∨ (exec c p l).2 = .next) →
+    ∀ p l, ((exec p c l).2 = .ret (.err none) ∨ (exec p c l).2 = .next) →
       ∀ e, e ∈ spine p → eval c l e = .bool false := by
   intro p
   induction p with
@@ -256,7 +435,7 @@ theorem spine_sound (c : Ctx) :
       intro l hres e he
       simp only [spine, List.mem_append] at he
       simp only [exec] at hres
-      cases ha : exec c a l with
+      cases ha : exec a c l with
       | mk l1 s1 =>
         rw [ha] at hres
         cases s1 with
@@ -266,7 +445,6 @@ theorem spine_sound (c : Ctx) :
             · exact iha l (by rw [ha]; exact Or.inr rfl) e he
             · split at he
               · have hb := ihb l1 hres e he
-                -- spine guards read no variable
                 have hv : exprNoVar e = true := spine_noVar b e he
                 rw [eval_noVar c l l1 e hv]; exact hb
               · simp at he
@@ -277,9 +455,11 @@ theorem spine_sound (c : Ctx) :
               · exact iha l (by rw [ha]; exact Or.inl hres) e he
               · split at he
                 · rename_i hrej
-                  exact absurd (by rw [ha]; exact hres) (rejectOnly_no_accept c a hrej l)
+                  exact absurd (by rw [ha]; exact hres) (rejectOnly_no_accept a hrej c l)
                 · simp at he
             · simp at hres
+        | brk => simp at hres
+        | cont => simp at hres
         | stuck w => simp at hres
   | block p ih =>
       intro l hres e he
@@ -294,7 +474,8 @@ theorem spine_sound (c : Ctx) :
       rw [eval_noVar c l [] e hv]
       apply ih [] _ e he
       revert hres
-      cases (exec c body []).2 with
+      unfold checkResult
+      cases (exec body c []).2 with
       | ret v => cases v with
         | err t => cases t <;> simp
         | _ => simp
@@ -324,7 +505,7 @@ theorem spine_sound (c : Ctx) :
             | true =>
                 rw [hcv] at hres
                 simp only at hres
-                have := rejectOnly_no_accept c (.ret x) (by simp [rejectOnly, hx]) l
+                have := rejectOnly_no_accept (.ret x) (by simp [rejectOnly, hx]) c l
                 simp only [exec] at this
                 rcases hres with hres | hres
                 · exact absurd hres this
@@ -332,36 +513,12 @@ theorem spine_sound (c : Ctx) :
         | _ => rw [hcv] at hres; simp at hres
       · simp at he
   | _ => intro l _ e he; simp [spine] at he
-where
-  spine_noVar : ∀ p e, e ∈ spine p → exprNoVar e = true := by
-    intro p
-    induction p with
-    | seq a b iha ihb =>
-        intro e he
-        simp only [spine, List.mem_append] at he
-        rcases he with he | he
-        · exact iha e he
-        · split at he
-          · exact ihb e he
-          · simp at he
-    | block p ih => intro e he; exact ih e he
-    | check tag body ih => intro e he; exact ih e he
-    | ite cnd t e0 _ _ =>
-        intro e he
-        simp only [spine] at he
-        split at he
-        · rename_i hc
-          simp only [Bool.and_eq_true] at hc
-          simp only [List.mem_singleton] at he
-          subst he
-          exact hc.2
-        · simp at he
-    | _ => intro e he; simp [spine] at he
 
-/-- "at least as accepting": an accept stays an accept; a fall-through stays the same fall-through or becomes an accept -/
+/-- "at least as accepting": an accept stays an accept; a run that passes control on (fall-through, `break`,
+`continue`) does exactly the same or becomes an accept -/
 def Good (r r' : Locals × Sig) : Prop :=
   (r.2 = .ret (.err none) → r'.2 = .ret (.err none)) ∧
-  (r.2 = .next → (r' = r ∨ r'.2 = .ret (.err none)))
+  (passing r.2 → (r' = r ∨ r'.2 = .ret (.err none)))
 
 theorem Good.rfl' (r : Locals × Sig) : Good r r := ⟨fun h => h, fun _ => Or.inl rfl⟩
 
@@ -374,115 +531,227 @@ theorem Good.scoped {r r' : Locals × Sig} (l : Locals) (h : Good r r') :
   · left; rw [h1]
   · right; exact h1
 
-theorem relax_mono {c c' : Ctx} (h : CtxLe c c') :
-    ∀ p, relaxOK p = true → ∀ l, Good (exec c p l) (exec c' p l) := by
+theorem Good.of_fail {r r' : Locals × Sig} (h1 : r.2 ≠ .ret (.err none)) (h2 : ¬ passing r.2) : Good r r' :=
+  ⟨fun h => absurd h h1, fun h => absurd h h2⟩
+
+theorem checkResult_good (tag : Option String) (l : Locals) {r r' : Locals × Sig} (g : Good r r') :
+    Good (checkResult tag l r.2) (checkResult tag l r'.2) := by
+  cases hb : r.2 with
+  | ret v =>
+      cases v with
+      | err t =>
+          cases t with
+          | none => rw [g.1 hb]; exact Good.rfl' _
+          | some t => exact Good.of_fail (by simp [checkResult]) (by simp [checkResult, passing])
+      | _ => exact Good.of_fail (by simp [checkResult]) (by simp [checkResult, passing])
+  | _ => exact Good.of_fail (by simp [checkResult]) (by simp [checkResult, passing])
+
+theorem iter_good (f f' : Locals → Locals × Sig) (mk : Nat → Val) (v : String)
+    (hf : ∀ l, Good (f l) (f' l)) : ∀ is l, Good (iter f mk v is l) (iter f' mk v is l) := by
+  intro is
+  induction is with
+  | nil => intro l; exact Good.rfl' _
+  | cons i is ih =>
+      intro l
+      have g := hf ((v, mk i) :: l)
+      simp only [iter]
+      -- what the second run does once its body has returned nil
+      have acc : (f' ((v, mk i) :: l)).2 = .ret (.err none) →
+          (match (f' ((v, mk i) :: l)).2 with
+            | .next => iter f' mk v is (scopeExit l (f' ((v, mk i) :: l)).1)
+            | .cont => iter f' mk v is (scopeExit l (f' ((v, mk i) :: l)).1)
+            | .brk => (scopeExit l (f' ((v, mk i) :: l)).1, Sig.next)
+            | s => (scopeExit l (f' ((v, mk i) :: l)).1, s)).2 = .ret (.err none) := by
+        intro h; rw [h]
+      cases hs : (f ((v, mk i) :: l)).2 with
+      | next =>
+          rcases g.2 (by rw [hs]; exact Or.inl rfl) with h1 | h1
+          · rw [h1, hs]; exact ih _
+          · exact ⟨fun _ => acc h1, fun _ => Or.inr (acc h1)⟩
+      | cont =>
+          rcases g.2 (by rw [hs]; exact Or.inr (Or.inr rfl)) with h1 | h1
+          · rw [h1, hs]; exact ih _
+          · exact ⟨fun _ => acc h1, fun _ => Or.inr (acc h1)⟩
+      | brk =>
+          rcases g.2 (by rw [hs]; exact Or.inr (Or.inl rfl)) with h1 | h1
+          · rw [h1, hs]; exact Good.rfl' _
+          · exact ⟨fun _ => acc h1, fun _ => Or.inr (acc h1)⟩
+      | ret x =>
+          refine ⟨fun hv => ?_, fun hp => ?_⟩
+          · simp only at hv
+            exact acc (g.1 (by rw [hs]; exact hv))
+          · simp [passing] at hp
+      | stuck w => exact Good.of_fail (by simp) (by simp [passing])
+
+/-- switching on relaxation flags leaves an `antiCond` condition as it was or makes it false -/
+theorem antiCond_eval {c c' : Ctx} (h : CtxLe c c') (l : Locals) :
+    ∀ e, antiCond e = true → eval c' l e = eval c l e ∨ eval c' l e = .bool false := by
+  intro e
+  induction e with
+  | not a _ =>
+      intro ha
+      cases a with
+      | flag src n =>
+          simp only [eval]
+          cases hf : hasFlag c src n with
+          | true => left; rw [h.more src n hf]
+          | false =>
+              cases hf' : hasFlag c' src n with
+              | false => left; rfl
+              | true => right; rfl
+      | _ => simp [antiCond] at ha
+  | and a b iha ihb =>
+      intro hab
+      simp only [antiCond, Bool.or_eq_true, Bool.and_eq_true] at hab
+      simp only [eval]
+      rcases hab with ⟨ha, hb⟩ | ⟨ha, hb⟩
+      · rw [← eval_noRelax h l b hb]
+        rcases iha ha with h1 | h1
+        · left; rw [h1]
+        · right; rw [h1]
+      · rw [← eval_noRelax h l a ha]
+        cases hav : eval c l a with
+        | bool x =>
+            cases x with
+            | false => left; rfl
+            | true =>
+                simp only
+                rcases ihb hb with h1 | h1
+                · left; rw [h1]
+                · right; rw [h1]
+        | _ => left; rfl
+  | _ => intro ha; simp [antiCond] at ha
+
+theorem relax_mono :
+    ∀ p, relaxOK p = true → ∀ (c c' : Ctx), CtxLe c c' → ∀ l, Good (exec p c l) (exec p c' l) := by
   intro p
   induction p with
-  | skip => intro _ l; exact Good.of_eq (by simp [exec])
-  | ret e => intro hr l; simp [relaxOK] at hr; exact Good.of_eq (by simp [exec, eval_noRelax h l e hr])
-  | bind x e => intro hr l; simp [relaxOK] at hr; exact Good.of_eq (by simp [exec, eval_noRelax h l e hr])
-  | bind2 x y e => intro hr l; simp [relaxOK] at hr; exact Good.of_eq (by simp [exec, eval_noRelax h l e hr])
-  | assign x e => intro hr l; simp [relaxOK] at hr; exact Good.of_eq (by simp [exec, eval_noRelax h l e hr])
-  | assign2 x y e => intro hr l; simp [relaxOK] at hr; exact Good.of_eq (by simp [exec, eval_noRelax h l e hr])
+  | skip => intro _ c c' _ l; exact Good.of_eq (by simp [exec])
+  | brk => intro _ c c' _ l; exact Good.of_eq (by simp [exec])
+  | cont => intro _ c c' _ l; exact Good.of_eq (by simp [exec])
+  | ret e => intro hr c c' h l; simp [relaxOK] at hr; exact Good.of_eq (by simp [exec, eval_noRelax h l e hr])
+  | bind x e => intro hr c c' h l; simp [relaxOK] at hr; exact Good.of_eq (by simp [exec, eval_noRelax h l e hr])
+  | bind2 x y e => intro hr c c' h l; simp [relaxOK] at hr; exact Good.of_eq (by simp [exec, eval_noRelax h l e hr])
+  | assign x e => intro hr c c' h l; simp [relaxOK] at hr; exact Good.of_eq (by simp [exec, eval_noRelax h l e hr])
+  | assign2 x y e => intro hr c c' h l; simp [relaxOK] at hr; exact Good.of_eq (by simp [exec, eval_noRelax h l e hr])
   | unknown s => intro hr; simp [relaxOK] at hr
   | sub x params args body _ =>
-      intro hr l
+      intro hr c c' h l
       simp [relaxOK] at hr
-      exact Good.of_eq (exec_noRelax h (.sub x params args body) (by simp [progNoRelax, hr.2]; exact hr.1) l)
+      exact Good.of_eq (exec_noRelax (.sub x params args body) (by simp [progNoRelax, hr.2]; exact hr.1) c c' h l)
+  | subOn x recv params args body _ =>
+      intro hr c c' h l
+      simp [relaxOK] at hr
+      exact Good.of_eq (exec_noRelax (.subOn x recv params args body)
+        (by simp [progNoRelax, hr.1.1, hr.2]; exact hr.1.2) c c' h l)
   | block p ih =>
-      intro hr l
+      intro hr c c' h l
       simp [relaxOK] at hr
       simp only [exec]
-      exact Good.scoped l (ih hr l)
+      exact Good.scoped l (ih hr c c' h l)
   | check tag body ih =>
-      intro hr l
+      intro hr c c' h l
       simp [relaxOK] at hr
-      have g := ih hr []
       simp only [exec]
-      cases hb : (exec c body []).2 with
-      | next => exact ⟨by simp, by simp⟩
-      | stuck w => exact ⟨by simp, by simp⟩
-      | ret v =>
-          cases v with
-          | err t =>
-              cases t with
-              | none =>
-                  have := g.1 hb
-                  simp [this]
-                  exact Good.rfl' _
-              | some t => exact ⟨by simp, by simp⟩
-          | _ => exact ⟨by simp, by simp⟩
+      exact checkResult_good tag l (ih hr c c' h [])
+  | checkOn tag recv params args body ih =>
+      intro hr c c' h l
+      simp [relaxOK] at hr
+      have ha := evalArgs_noRelax h l args (by simpa using hr.1.2)
+      simp only [exec, ha, eval_noRelax h l recv hr.1.1]
+      split
+      · rename_i p _
+        split
+        · exact Good.rfl' _
+        · exact checkResult_good tag l (ih hr.2 _ _ (h.withRecv p) _)
+      · exact Good.rfl' _
+  | forEach v coll body ih =>
+      intro hr c c' h l
+      simp [relaxOK] at hr
+      simp only [exec, eval_noRelax h l coll hr.1]
+      split
+      · exact iter_good _ _ _ _ (fun l' => ih hr.2 c c' h l') _ _
+      · exact Good.rfl' _
+      · exact Good.rfl' _
+  | forIdx v coll body ih =>
+      intro hr c c' h l
+      simp [relaxOK] at hr
+      simp only [exec, eval_noRelax h l coll hr.1]
+      split
+      · exact iter_good _ _ _ _ (fun l' => ih hr.2 c c' h l') _ _
+      · exact Good.rfl' _
+      · exact Good.rfl' _
   | seq a b iha ihb =>
-      intro hr l
+      intro hr c c' h l
       simp [relaxOK] at hr
-      have ga := iha hr.1 l
+      have ga := iha hr.1 c c' h l
       simp only [exec]
-      cases ha : exec c a l with
+      -- under c' the first part may already accept
+      have acc : (exec a c' l).2 = .ret (.err none) →
+          (match exec a c' l with | (l1, .next) => exec b c' l1 | r => r).2 = .ret (.err none) := by
+        intro h1
+        cases ha' : exec a c' l with
+        | mk l2 s2 => rw [ha'] at h1; simp only at h1; subst h1; rfl
+      cases ha : exec a c l with
       | mk l1 s1 =>
+        rw [ha] at ga
         cases s1 with
         | next =>
-            rcases ga.2 (by simp [ha]) with h1 | h1
-            · rw [h1, ha]; exact ihb hr.2 l1
-            · -- under c' the first part already accepts
-              cases ha' : exec c' a l with
-              | mk l2 s2 =>
-                rw [ha'] at h1
-                simp only at h1
-                subst h1
-                exact ⟨fun _ => rfl, fun _ => Or.inr rfl⟩
+            rcases ga.2 (Or.inl rfl) with h1 | h1
+            · rw [h1]; exact ihb hr.2 c c' h l1
+            · exact ⟨fun _ => acc h1, fun _ => Or.inr (acc h1)⟩
+        | brk =>
+            rcases ga.2 (Or.inr (Or.inl rfl)) with h1 | h1
+            · rw [h1]; exact Good.rfl' _
+            · exact ⟨fun _ => acc h1, fun _ => Or.inr (acc h1)⟩
+        | cont =>
+            rcases ga.2 (Or.inr (Or.inr rfl)) with h1 | h1
+            · rw [h1]; exact Good.rfl' _
+            · exact ⟨fun _ => acc h1, fun _ => Or.inr (acc h1)⟩
         | ret v =>
-            refine ⟨fun hv => ?_, by simp⟩
-            have h1 := ga.1 (by rw [ha]; exact hv)
-            cases ha' : exec c' a l with
-            | mk l2 s2 =>
-              rw [ha'] at h1
-              simp only at h1
-              subst h1
-              rfl
-        | stuck w => exact ⟨by simp, by simp⟩
+            refine ⟨fun hv => ?_, fun hp => ?_⟩
+            · exact acc (ga.1 hv)
+            · simp [passing] at hp
+        | stuck w => exact Good.of_fail (by simp) (by simp [passing])
   | ite cnd t e iht ihe =>
-      intro hr l
+      intro hr c c' h l
       -- the generic case: the condition mentions no relaxation flag
       have generic : exprNoRelax cnd = true → relaxOK t = true → relaxOK e = true →
-          Good (exec c (.ite cnd t e) l) (exec c' (.ite cnd t e) l) := by
+          Good (exec (.ite cnd t e) c l) (exec (.ite cnd t e) c' l) := by
         intro hc ht he
         simp only [exec, eval_noRelax h l cnd hc]
         split
-        · exact Good.scoped l (iht ht l)
-        · exact Good.scoped l (ihe he l)
+        · exact Good.scoped l (iht ht c c' h l)
+        · exact Good.scoped l (ihe he c c' h l)
         · exact Good.rfl' _
+      by_cases hanti : antiCond cnd = true
+      · simp only [relaxOK, hanti, if_true, Bool.and_eq_true] at hr
+        obtain ⟨⟨⟨hsk, hrej⟩, hna⟩, hok⟩ := hr
+        have he : e = .skip := by cases e <;> simp [isSkip] at hsk; rfl
+        subst he
+        simp only [exec]
+        rcases antiCond_eval h l cnd hanti with h1 | h1
+        · rw [h1]
+          split
+          · exact Good.scoped l (iht hok c c' h l)
+          · exact Good.rfl' _
+          · exact Good.rfl' _
+        · rw [h1]
+          simp only [exec, scopeExit_self]
+          cases hcv : eval c l cnd with
+          | bool b =>
+              cases b with
+              | false => simp only [exec, scopeExit_self]; exact Good.rfl' _
+              | true =>
+                  simp only
+                  refine ⟨fun ha => absurd ha (rejectOnly_no_accept t hrej c l), fun hn => ?_⟩
+                  left
+                  obtain ⟨h2, pre, hp⟩ := noAssign_suffix t hna c l hn
+                  rw [hp, scopeExit_append, h2]
+          | _ => exact Good.of_fail (by simp) (by simp [passing])
       cases cnd with
-      | not a =>
-          cases a with
-          | flag src n =>
-              simp only [relaxOK] at hr
-              by_cases hrel : relaxFlags.contains n = true
-              · simp only [hrel, if_true, Bool.and_eq_true] at hr
-                obtain ⟨⟨⟨hsk, hrej⟩, hna⟩, hok⟩ := hr
-                have he : e = .skip := by cases e <;> simp [isSkip] at hsk; rfl
-                subst he
-                simp only [exec, eval]
-                cases hf : hasFlag c src n with
-                | true =>
-                    simp [h.more src n hf, scopeExit_self]
-                    exact Good.rfl' _
-                | false =>
-                    cases hf' : hasFlag c' src n with
-                    | false => simp; exact Good.scoped l (iht hok l)
-                    | true =>
-                        simp [scopeExit_self]
-                        refine ⟨fun ha => absurd ha (rejectOnly_no_accept c t hrej l), fun hn => ?_⟩
-                        left
-                        obtain ⟨pre, hp⟩ := noAssign_suffix c t hna l (exec c t l).1 (by rw [← hn])
-                        rw [hp, scopeExit_append, hn]
-              · simp only [hrel] at hr
-                simp at hr
-                exact generic (by simp [exprNoRelax]; simpa using hrel) hr.1 hr.2
-          | _ =>
-              simp only [relaxOK, Bool.and_eq_true] at hr
-              exact generic hr.1.1 hr.1.2 hr.2
       | flag src n =>
-          simp only [relaxOK] at hr
+          rw [relaxOK, if_neg hanti] at hr
           by_cases hrel : relaxFlags.contains n = true
           · simp only [hrel, if_true, Bool.and_eq_true] at hr
             have ht : t = .ret .nil := by
@@ -494,23 +763,25 @@ theorem relax_mono {c c' : Ctx} (h : CtxLe c c') :
             | true => simp [h.more src n hf]; exact Good.rfl' _
             | false =>
                 cases hf' : hasFlag c' src n with
-                | false => simp; exact Good.scoped l (ihe hr.2 l)
+                | false => simp; exact Good.scoped l (ihe hr.2 c c' h l)
                 | true => simp; exact ⟨by simp, by simp⟩
           · simp only [hrel] at hr
             simp at hr
             exact generic (by simp [exprNoRelax]; simpa using hrel) hr.1 hr.2
       | _ =>
-          simp only [relaxOK, Bool.and_eq_true] at hr
-          exact generic hr.1.1 hr.1.2 hr.2
+          rw [relaxOK, if_neg hanti] at hr
+          · simp only [Bool.and_eq_true] at hr
+            exact generic hr.1.1 hr.1.2 hr.2
+          · intro _ _ hh; cases hh
 
 /-- an accepted receiver stays accepted when more relaxation flags are switched on -/
 theorem run_mono {c c' : Ctx} (h : CtxLe c c') (p : Prog) (hp : relaxOK p = true)
     (ha : run c p = .accept) : run c' p = .accept := by
-  have g := relax_mono h p hp []
+  have g := relax_mono p hp c c' h []
   unfold run at ha ⊢
-  have : (exec c p []).2 = .ret (.err none) := by
+  have : (exec p c []).2 = .ret (.err none) := by
     revert ha
-    cases (exec c p []).2 with
+    cases (exec p c []).2 with
     | ret v => cases v with
       | err t => cases t <;> simp
       | _ => simp
